@@ -239,11 +239,11 @@ class PixCoord:
         """
         dx = self.x - center.x
         dy = self.y - center.y
-        vec = np.array([dx, dy])
 
+        # apply the rotation matrix [[cosa, -sina], [sina, cosa]]
+        # element-wise so that coordinates of any shape are supported
         cosa, sina = np.cos(angle), np.sin(angle)
-        rotation_matrix = np.array([[cosa, -sina], [sina, cosa]])
+        x = center.x + (cosa * dx - sina * dy)
+        y = center.y + (sina * dx + cosa * dy)
 
-        vec = np.matmul(rotation_matrix, vec)
-
-        return self.__class__(center.x + vec[0], center.y + vec[1])
+        return self.__class__(x, y)
